@@ -332,3 +332,14 @@ Proof.
   - rewrite scan_hit. simpl. rewrite IHr. auto. simpl in H. apply andb_true_iff in H. tauto.
   - rewrite scan_nocross. auto. rewrite tok_open_eq. apply nc_sub. simpl in H. apply andb_true_iff in H. tauto.
 Qed.
+
+Lemma replace_unfold : forall old new t, old <> [] -> replace old new t = replace_from old new 0 t.
+Proof. intros. destruct old. congruence. reflexivity. Qed.
+
+Lemma replace_from_tok_segs : forall a new l, alloc_ok a = true -> segs_ok l = true ->
+  replace_from (tok_text a) new 0 (segs_text l) = segs_text (map (sub_tok a new) l).
+Proof. intros. rewrite <- replace_unfold by apply tok_text_nonnil. apply replace_tok_segs; auto. Qed.
+
+Lemma replace_from_var_segs : forall new l, segs_ok l = true -> existsb is_tok l = false ->
+  replace_from launcher_var new 0 (segs_text l) = segs_text (map (sub_var new) l).
+Proof. intros. rewrite <- replace_unfold by apply var_nonnil. apply replace_var_segs; auto. Qed.
